@@ -32,6 +32,7 @@ def run(ctx):
     ctx.rule("P8", "Untangler: the current element's width is reset to a constant only where it was just added to the patch index (flush); pending updates replace it only with the width of a visible op")
     ctx.rule("P9", "ValueState::{map_process, list_flush}: an Increment patch is logged only on the false edge of the doc value's `expose` flag (a counter the view never held gets a put)")
     ctx.rule("P10", "TransactionInner::{local_map_op, local_list_op}: after the op is recorded a put patch can follow (the conflict-resolving put of the unchanged winner clears the view's conflict flag)")
+    ctx.rule("P11", "ValueState::{map_process, list_flush}: a bare Conflict patch (flag_conflict) is logged only downstream of a not-`deleted` edge of the doc value and of no `deleted` edge (when the merge deletes what was on display, the newcomer is put)")
     ctx.rule("P2", "C15 R7-pair re-run")
     ctx.rule("P3", "C24 E6 (delete_seq lengths) and E4 (Untangler index steps) re-run")
     f = ctx.facts()
@@ -117,6 +118,7 @@ def run(ctx):
     check_untangler_width(ctx, f)
     check_increment_vs_expose(ctx, f)
     check_conflict_resolution_logged(ctx, f)
+    check_conflict_vs_deleted(ctx, f)
     C15.check_expose_pair(ctx, f)
     C24.check_delete_lengths(ctx, f)
     C24.check_untangler_index(ctx, f)
@@ -306,3 +308,25 @@ def check_conflict_resolution_logged(ctx, f):
         ctx.ob("P10", "%s|conflict-resolving put is logged" % tail, ok, (cleared[0][1]["sp"] if cleared else b.rec["sp"]),
                "a put of the unchanged winner with the conflict cleared can follow the recorded op" if ok else
                "a put that only resolves a conflict (same value as the winner) is recorded without any patch: a materialized view keeps the register flagged as conflicted")
+
+
+def check_conflict_vs_deleted(ctx, f):
+    n = 0
+    for tail in ("map_process", "list_flush"):
+        P = [p for p in f.fns if norm_fn(p) == "automerge::op_set2::change::batch::ValueState::" + tail]
+        if len(P) != 1:
+            raise facts.AnchorMissing("ValueState::" + tail)
+        b = cfg.body(f.fns[P[0]])
+        ctx.analysed_fns.add(P[0])
+        flags = [(bi, t) for bi, t in b.calls() if (callee(t) or "").startswith("automerge::patches::patch_log::PatchLog::flag_conflict")]
+        is_deleted = lambda og: bool(og[1]) and og[1][-1] == ".deleted"
+        kept = cfg.cond_edges(b, atom_place=is_deleted, want=False)
+        gone = cfg.cond_edges(b, atom_place=is_deleted, want=True)
+        after_kept = set().union(*[b.reachable(start=e[1]) for e in kept]) if kept else set()
+        after_gone = set().union(*[b.reachable(start=e[1]) for e in gone]) if gone else set()
+        for k, (bi, t) in util.ordinal_keys(flags, lambda it, tl=tail: "%s|conflict patch" % tl):
+            n += 1
+            ok = bi in after_kept and bi not in after_gone
+            ctx.ob("P11", k, ok, t["sp"], "only when the value on display survives the merge" if ok else
+                   "a bare Conflict patch is logged without looking at whether this merge deletes the value on display: the view keeps the deleted value, flagged conflicted, while the document shows the newcomer alone")
+    ctx.floor("conflict patches in ValueState", n, 3)
